@@ -69,11 +69,25 @@ def resolve_let(chain, stmts, i, name):
     return None, None
 
 
-def is_span_of(e, loc):
-    """e == Range::new(loc.offset, loc.offset + loc.len)"""
+def _field_aliases(scope_node, loc):
+    """locals bound exactly once (in scope_node) to `loc.offset` / `loc.len`: {name: 'loc.offset'}"""
+    seen = {}
+    for n in sx.walk(scope_node):
+        if n.get('k') == 'let' and 'init' in n and n.get('pat', {}).get('k') == 'ident':
+            seen.setdefault(n['pat']['n'], []).append(sq(n['init']))
+    return {k: v[0] for k, v in seen.items() if len(v) == 1 and v[0] in ('%s.offset' % loc, '%s.len' % loc)}
+
+
+def is_span_of(e, loc, aliases=None):
+    """e == Range::new(loc.offset, loc.offset + loc.len)   (modulo locals that merely name loc.offset / loc.len)"""
     if not (sx.is_call(e) and e['f']['p'] == 'Range::new' and len(e['args']) == 2):
         return False
     a, b = sq(e['args'][0]), sq(e['args'][1])
+    if aliases:
+        import re as _re
+        for k_, v_ in aliases.items():
+            a = _re.sub(r'(?<![\w.])%s(?![\w(])' % _re.escape(k_), v_, a)
+            b = _re.sub(r'(?<![\w.])%s(?![\w(])' % _re.escape(k_), v_, b)
     return a == '%s.offset' % loc and b in ('(%s.offset+%s.len)' % (loc, loc), '(%s.len+%s.offset)' % (loc, loc))
 
 
@@ -290,6 +304,21 @@ def x1_x3(ctx):
         return [r1, r2, r3]
     text_param = pp.params[0]
     path_param = 'path'
+    # must-pass-through: every successful exit of the event-loop function lies behind the call of the preprocessor's own parser.  That
+    # parse is what rejects preprocessor-level lexical faults (unterminated string / block comment, stray backslash) as Error::Preprocess,
+    # and what the emitted segments are cut from; a "nothing to do" shortcut in front of it hands such text on unscanned
+    from vlib import paths as _paths
+    scans = [n for n in sx.walk(pp.loop_fn['body']) if n.get('k') == 'call' and any(z.get('k') == 'path' and z['p'].split('::')[-1] == 'pp_parser' for z in sx.walk(n.get('f', {})))]
+    scans += [n for n in sx.walk(pp.loop_fn['body']) if n.get('k') == 'call' and sx.is_path(n['f']) and n['f']['p'].split('::')[-1] == 'pp_parser']
+    r1.inst('scan-dominates-exits', {'pp_parser_calls': len(scans)})
+    if scans:
+        exits_ = _paths.exits_avoiding(pp.loop_fn['body'], lambda n: any(n is c_ for c_ in scans))
+        oks_ = [e_ for e_ in exits_ if sx.is_call(e_, 'Ok')]
+        if oks_:
+            r1.fail('%s:%s:unscanned-exit' % (CRATE, pp.loop_fn['name']), pp.where(oks_[0].get('l') or pp.loop_fn['l']),
+                    '%s can return `%s` without having run the preprocessor\'s parser over the text: on that path an unterminated string or block comment or a stray backslash is '
+                    'not reported as Error::Preprocess (it reaches the main parser, or the caller, unscanned) and the text is not cut into the segments the origin map is built from'
+                    % (pp.loop_fn['name'], sq(oks_[0])[:40]))
     sites, stray = push_sites(pp)
     for n in stray:
         r1.fail('%s:push-not-statement' % CRATE, pp.where(n.get('l')), 'a push into the output that is not a plain statement (unmodelled, fail closed)')
@@ -347,7 +376,7 @@ def x1_x3(ctx):
             if sx.is_path(rng):
                 st_r, _ = resolve_let(chain, stmts, i, rng['p'])
                 rexpr = st_r['init'] if st_r is not None and 'init' in st_r else None
-            if rexpr is None or not is_span_of(rexpr, loc):
+            if rexpr is None or not is_span_of(rexpr, loc, _field_aliases(arm.body, loc) if arm is not None else None):
                 r1.fail(key + ':origin-range', pp.where(call.get('l')),
                         '%s: emits `%s` but records origin range `%s`; expected Range::new(%s.offset, %s.offset + %s.len)' %
                         (akey, sx.render(text), sx.render(rexpr)[:80] if rexpr else sx.render(rng), loc, loc, loc),
@@ -419,9 +448,39 @@ def x1_x3(ctx):
                     rf = pp.fns[enclosing_ok]
                     rets = [n for n in sx.walk(rf['body']) if sx.is_call(n, 'Some') and n['args'] and n['args'][0].get('k') == 'tuple'
                             and len(n['args'][0]['e']) == 3]
-                    good = [n for n in rets if sq(n['args'][0]['e'][1]) in ('text.origin.clone()',)]
+                    def _def_origin(e_, depth=0):
+                        """'ok' if e_ is <D>.origin(.clone()) with D bound to the `text` field of the define; 'wrong' if it has a fallback; None if unknown"""
+                        while e_.get('k') == 'mcall' and e_['m'] in ('clone', 'to_owned') and not e_['args']:
+                            e_ = e_['recv']
+                        if e_.get('k') == 'mcall' and e_['m'] in ('or', 'or_else', 'unwrap_or', 'unwrap_or_else', 'map', 'and_then', 'xor', 'filter'):
+                            return 'wrong'
+                        if e_.get('k') in ('if', 'match') or sx.is_call(e_, 'Some'):
+                            return 'wrong'
+                        if e_.get('k') == 'field' and e_.get('m') == 'origin' and sx.is_path(e_['e']):
+                            d_ = e_['e']['p']
+                            for n_ in sx.walk(rf['body']):
+                                srcs_ = []
+                                if n_.get('k') == 'let' and d_ in [x for x in sx.pat_idents(n_['pat']) if x]:
+                                    srcs_.append(n_.get('init') or n_.get('e'))
+                                if n_.get('k') == 'if' and n_['c'].get('k') == 'let' and d_ in [x for x in sx.pat_idents(n_['c']['pat']) if x]:
+                                    srcs_.append(n_['c']['e'])
+                                if n_.get('k') == 'match' and any(d_ in [x for x in sx.pat_idents(a_['pat']) if x] for a_ in n_['arms']):
+                                    srcs_.append(n_['e'])
+                                for s_ in srcs_:
+                                    if isinstance(s_, dict) and any(z.get('k') == 'field' and z.get('m') == 'text' for z in sx.walk(s_)):
+                                        return 'ok'
+                            return None
+                        if sx.is_path(e_) and depth < 2:
+                            ls_ = [n_ for n_ in sx.walk(rf['body']) if n_.get('k') == 'let' and 'init' in n_ and n_['pat'].get('k') == 'ident' and n_['pat']['n'] == e_['p']]
+                            if len(ls_) == 1:
+                                return _def_origin(ls_[0]['init'], depth + 1)
+                        return None
+                    verdicts_ = [_def_origin(n['args'][0]['e'][1]) for n in rets]
+                    good = [v_ for v_ in verdicts_ if v_ == 'ok']
                     r3.inst('%s:%s:returns-definition-origin' % (CRATE, enclosing_ok))
-                    if len(rets) != 1 or len(good) != 1:
+                    if len(rets) == 1 and verdicts_ == [None]:
+                        r3.undecided('%s:%s:origin-of-expansion' % (CRATE, enclosing_ok), pp.where(rf['l']), 'how the origin handed back by %s derives from the definition is not recognised (`%s`)' % (enclosing_ok, sq(rets[0]['args'][0]['e'][1])[:40]))
+                    elif len(rets) != 1 or len(good) != 1:
                         r3.fail('%s:%s:origin-of-expansion' % (CRATE, enclosing_ok), pp.where(rf['l']),
                                 '%s must return the origin recorded with the macro definition (DefineText.origin) as the origin of the expansion' % enclosing_ok)
             elif sx.is_call(origin, 'Some') and origin['args'][0].get('k') == 'tuple' and len(origin['args'][0]['e']) == 2 \
@@ -494,7 +553,7 @@ def x1_x3(ctx):
         if sx.is_path(rng_):
             ls_ = [st_ for st_ in h['body']['stmts'] if st_['k'] == 'let' and rng_['p'] in sx.pat_idents(st_['pat']) and 'init' in st_]
             rexpr_ = ls_[-1]['init'] if ls_ else None
-        if rexpr_ is None or not is_span_of(rexpr_, locp):
+        if rexpr_ is None or not is_span_of(rexpr_, locp, _field_aliases(h['body'], locp)):
             r1.fail(hkey + ':origin-range', pp.where(hpush[0].get('l')), '%s: emits `%s` but records origin range `%s`; expected Range::new(%s.offset, %s.offset + %s.len)' %
                     (hname, sq(text_), sq(rexpr_)[:60] if rexpr_ else sq(rng_), locp, locp, locp))
         for c_ in calls_:
